@@ -58,6 +58,9 @@ def _connect(s):
 
 
 def execute(case):
+    if "token" in case:
+        from vfw import live
+        return live.execute_live(case, ('C07:live',))
     from circus.sockets import CircusSocket
     tmp = tempfile.mkdtemp(prefix='c07-')
     socks = []
@@ -283,11 +286,23 @@ def _strip(case):
 
 def plan(tier, seed):
     n = 700 if tier == 'quick' else 6000
-    return [{"seed": seed * 100 + i, "n": n} for i in range(16)]
+    nl = 3 if tier == 'quick' else 40
+    return ([{"seed": seed * 100 + i, "n": n} for i in range(13)] +
+            [{"kind": "live", "seed": seed * 100 + 60 + i, "n": nl}
+             for i in range(3)])
 
 
 def run_shard(spec):
     stats = Stats()
+    if spec.get("kind") == 'live':
+        from vfw import live
+        found = hyp_search(live.strategy(), execute, stats, spec["seed"],
+                           spec["n"], known=spec["known"], max_rounds=2,
+                           shrink=False)
+        res = stats.as_dict()
+        res["violations"] = found
+        res["inconclusive"] = stats.counters.get('live-inconclusive', 0)
+        return res
     found = hyp_search(_strategy(), execute, stats, spec["seed"], spec["n"],
                        known=spec["known"], max_rounds=5)
     res = stats.as_dict()
@@ -297,7 +312,7 @@ def run_shard(spec):
 
 def check_floors(counters, evaluations, tier):
     msgs = []
-    if counters.get('several-generations', 0) < 0.3 * evaluations:
+    if counters.get('several-generations', 0) < 0.15 * evaluations:
         msgs.append("several generations in only %d of %d cases" % (
             counters.get('several-generations', 0), evaluations))
     return msgs
